@@ -38,6 +38,7 @@ class TermPeerWorld(PeerWorld):
         self.outstanding = []      # (transfer id, cumulative length, flags) written by R, not acknowledged
         self.acked = {}
         self.refused = set()
+        self.ended = set()         # transfers whose final segment R has written
         self.started = []          # transfer ids whose START segment R wrote
         self.r_term_seen = 0       # SESS_TERM messages R wrote
         self.done = dict(user_term=False, peer_term=False, refuse=False, stray=False)
@@ -62,6 +63,8 @@ class TermPeerWorld(PeerWorld):
             if msg['kind'] == 'XFER_SEGMENT':
                 tid = msg['transfer_id']
                 self.sent_data[tid] = self.sent_data.get(tid, b'') + bytes(msg['data'])
+                if msg['flags'] & 1:
+                    self.ended.add(tid)
                 if msg['flags'] & 2:
                     self.started.append(tid)
                     if self.r_term_seen:
@@ -89,7 +92,11 @@ class TermPeerWorld(PeerWorld):
             events.append(('peer', 'sess-term'))
         if self.outstanding:
             events.append(('peer', 'ack-next'))
-        if self.opts['refuse'] and not self.done['refuse'] and self.started:
+        if self.opts['refuse'] == 'completed':
+            # the peer refuses a transfer it has received completely and not yet acknowledged in full
+            if not self.done['refuse'] and any(o[0] in self.ended for o in self.outstanding):
+                events.append(('peer', 'refuse'))
+        elif self.opts['refuse'] and not self.done['refuse'] and self.started:
             events.append(('peer', 'refuse'))
         if self.opts['stray'] and not self.done['stray'] and self.established():
             events.append(('peer', 'stray'))
@@ -115,6 +122,8 @@ class TermPeerWorld(PeerWorld):
             elif event[1] == 'refuse':
                 self.done['refuse'] = True
                 tid = self.started[-1]
+                if self.opts['refuse'] == 'completed':
+                    tid = [o[0] for o in self.outstanding if o[0] in self.ended][0]
                 self.refused.add(tid)
                 self.outstanding = [o for o in self.outstanding if o[0] != tid]
                 self.peer_write(T.enc_refuse(1, tid))
@@ -162,12 +171,14 @@ class TermPeerWorld(PeerWorld):
         out = []
         if self.enabled_events():
             return out
-        if self.opts['stray'] and not self.r_closed():
-            # own transfers unaffected by the out-of-place message: everything was written intact
-            # and reported once
+        if (self.opts['stray'] or self.opts['refuse'] == 'completed') and not self.r_closed():
+            # own transfers unaffected by the out-of-place message / by the refusal of another transfer:
+            # everything was written intact and reported once
             fins = dict((sig[1], sig[3]) for sig in self.signals if sig[0] == 'send_bundle_finished')
             for (k, hexdata) in enumerate(self.params['queued']):
                 tid = k + 1
+                if tid in self.refused:
+                    continue
                 if self.sent_data.get(tid, b'') != bytes.fromhex(hexdata):
                     out.append(self.v('own-transfer-corrupted-on-the-wire', dict(), 'transfer %d: wrote %r, queued %s' % (tid, self.sent_data.get(tid), hexdata)))
                 elif fins.get(str(tid)) != 'success':
